@@ -218,6 +218,20 @@ class Iface(Ty):
         return replaylib.make_stub(cx, iface, cx.fresh_name(name))
 
 
+class Involution(Iface):
+    """An attribute whose own attribute of the same name leads back to the owner
+    (x.inversion.inversion has the view of x): to be proved of each implementing class."""
+
+    def __init__(self, iface, attr):
+        Iface.__init__(self, iface)
+        self.attr = attr
+
+    def make_attr(self, interp, name, owner, index=()):
+        iface = self.iface() if isinstance(self.iface, types.FunctionType) else self.iface
+        o = new_opaque(interp, iface, name, index=index, preset={self.attr: owner})
+        return o
+
+
 class ListOf(Ty):
     """Sequence of symbolic length whose elements have shape ``elem``."""
 
@@ -338,11 +352,13 @@ class Interface:
     truthy = True
 
 
-def new_opaque(interp, iface, name, index=()):
+def new_opaque(interp, iface, name, index=(), preset=None):
     st = interp.st
     uid = st.fresh_name(name) if not index else name
     o = Opaque(iface, uid)
     o.__dict__['_pv_index'] = tuple(index)
+    if preset:
+        o._pv_attrs.update(preset)
     inv = iface.__dict__.get('invariant') if isinstance(iface, type) else None
     if inv is None and isinstance(iface, type):
         for k in iface.__mro__:
@@ -351,8 +367,20 @@ def new_opaque(interp, iface, name, index=()):
                 break
     if inv is not None:
         f = inv.__func__ if isinstance(inv, staticmethod) else inv
-        st.assume(interp.truth(interp.call(f, [o], {})))
+        assume_pred(interp, f, o)
     return o
+
+
+def assume_pred(interp, pred, *args):
+    """Assume a sidecar predicate; parameters beyond the given arguments are ghosts, by name."""
+    from .loops import _param_names
+    names = _param_names(pred)
+    extra = []
+    for n in names[len(args):]:
+        if n not in interp.reg.ghost_env:
+            raise Unsupported('predicate %s needs ghost %r which is not in scope' % (getattr(pred, '__name__', pred), n))
+        extra.append(interp.reg.ghost_env[n])
+    interp.st.assume(interp.truth(interp.call(pred, list(args) + extra, {})))
 
 
 def _iface_lookup(iface, table, name):
@@ -383,6 +411,8 @@ def _indexed_scalar(interp, o, name, ty):
     if isinstance(ty, Opt):
         isn = z3.Function(base + '.is_none', *(sorts + [z3.BoolSort()]))(*idx)
         return SOpt(isn, _indexed_scalar(interp, o, name, ty.inner))
+    if isinstance(ty, Involution):
+        return ty.make_attr(interp, base, o, index=idx)
     if isinstance(ty, Iface):
         iface = ty.iface() if isinstance(ty.iface, types.FunctionType) else ty.iface
         return new_opaque(interp, iface, base, index=idx)
@@ -465,6 +495,8 @@ class Registry:
         if ty is not None:
             if o._pv_index:
                 v = _indexed_scalar(interp, o, name, ty)
+            elif isinstance(ty, Involution):
+                v = ty.make_attr(interp, '%s.%s' % (o._pv_uid, name), o)
             else:
                 v = ty.make(interp, '%s.%s' % (o._pv_uid, name)) if isinstance(ty, Ty) else ty
             o._pv_attrs[name] = v
